@@ -222,7 +222,18 @@ func checkC07(c CaseC07, info *Info) *Failure {
 					steps2 = append([]Step{{Name: "doc", Index: -1}}, c.Steps...)
 				}
 				want2 := refEval(copyMap(m2), steps2)
-				xb = reuseBuffer(xb, true, func(b []byte) { x2j.XmlValuesForPath(b, pathString(steps2)) })
+				if len(xb)%2 == 0 {
+					xb = reuseBuffer(xb, true, func(b []byte) { x2j.XmlValuesForPath(b, pathString(steps2)) })
+				} else {
+					// the same bytes were looked up a moment ago under other decoder options, and the caller changed what it got
+					underOtherOptions(func() {
+						vs, _ := x2j.XmlValuesForPath(xb, pathString(steps2))
+						for _, v := range vs {
+							scribble(v)
+						}
+						x2j.XmlValuesForPath(xb, "*")
+					})
+				}
 				xv, xverr := x2j.XmlValuesForPath(xb, pathString(steps2))
 				if xverr != nil || !compareVals(xv, want2, wild) {
 					return failf("xml-wrapper-mismatch", "xml %s path %q x2j.XmlValuesForPath=%s,%v want %s", xb, pathString(steps2), canon(xv), xverr, canon(want2))
